@@ -419,6 +419,8 @@ def _send(comm, obj, dest, dtype):
     from .field import Field
     from .multi_field import MultiField
 
+    if dtype is np.ndarray:
+        obj = np.asarray(obj)  # the sum of two 0-d arrays is a NumPy scalar
     assert isinstance(obj, dtype)
     if dtype is np.ndarray:
         shp_orig = obj.shape
